@@ -49,6 +49,7 @@ type srvConn struct {
 	parked    map[uint32]chan respSpec
 	dispatch  []string
 	dec       *hpack.Decoder
+	decMax    uint32 // the SETTINGS_HEADER_TABLE_SIZE the peer announced last
 	logMu     sync.Mutex
 	logLines  []string
 	inflight  int
@@ -299,6 +300,7 @@ func newSrvConn(mcs, mhl, mrb int) *srvConn {
 	http2.VerifResetCounters()
 	s := &srvConn{mc: newMemConn(), served: make(chan struct{}), parked: map[uint32]chan respSpec{}, holding: map[uint32]bool{}}
 	s.dec = hpack.NewDecoder(4096, nil)
+	s.decMax = 4096
 	fs := &fasthttp.Server{Handler: s.handler, Logger: capLogger{s}}
 	if mrb > 0 {
 		fs.MaxRequestBodySize = mrb
@@ -379,6 +381,19 @@ func (s *srvConn) fmtFrame(fr rawFrame) string {
 		return fmt.Sprintf("D(%d,es=%d,len=%d,%s)", fr.stream, fr.flags&1, len(p), digest(d))
 	case 1:
 		frag := p
+		// up to two leading dynamic table size updates (RFC 7541 4.2: the smallest size since the last block,
+		// then the final one) go to x/net's decoder one by one: it refuses a second one in the same block
+		// unless its table is empty (see cliSizeUpdateLen in cli.go)
+		for lead := 0; lead < 2; lead++ {
+			n := cliSizeUpdateLen(frag)
+			if n == 0 || n >= len(frag) {
+				break
+			}
+			if _, err := s.dec.DecodeFull(frag[:n]); err != nil {
+				break
+			}
+			frag = frag[n:]
+		}
 		hfs, err := s.dec.DecodeFull(frag)
 		var kvs [][2][]byte
 		for _, hf := range hfs {
@@ -518,7 +533,11 @@ func (s *srvConn) quiesce() string {
 }
 
 // noteSettings: the peer's own decoder may use what it announces in
-// SETTINGS_HEADER_TABLE_SIZE (well-formed SETTINGS frames only).
+// SETTINGS_HEADER_TABLE_SIZE (well-formed SETTINGS frames only), and shrinks its
+// table at once when it announces less than before, value by value (RFC 7540
+// 6.5.3: the values of a frame are processed in the order they appear): after
+// 0 then 4096 its table is empty and stays at 0 octets until the server's
+// encoder sends a size update (RFC 7541 4.2: the smallest size must be signalled).
 func (s *srvConn) noteSettings(b []byte) {
 	frames, _ := parseFrames(b)
 	for _, fr := range frames {
@@ -527,6 +546,10 @@ func (s *srvConn) noteSettings(b []byte) {
 				if int(fr.payload[i])<<8|int(fr.payload[i+1]) == 1 {
 					v := uint32(fr.payload[i+2])<<24 | uint32(fr.payload[i+3])<<16 | uint32(fr.payload[i+4])<<8 | uint32(fr.payload[i+5])
 					s.dec.SetAllowedMaxDynamicTableSize(v)
+					if v < s.decMax {
+						s.dec.SetMaxDynamicTableSize(v)
+					}
+					s.decMax = v
 				}
 			}
 		}
